@@ -582,20 +582,54 @@ func ruleC18(w *World) {
 			w.check(okEnough, "C18.R4", key+"/not-enough-yet", a.ins.Pos(), "share stored only while fewer than t+1 are held", "share map updated without the `not enough shares yet` guard (more than t+1 shares can be retained and EnoughShares can revert)", factStrings(fs)...)
 			// C06.R8 (emitted here, re-labelled by ruleC06): the documented refusal of a signer that already has a share
 			// precedes every error-free outcome of the method that adds shares — not only the map update itself
-			if emitAddRefusals && !addSeen[a.fn] {
-				addSeen[a.fn] = true
-				for _, r := range returnsFlat(a.fn) {
-					if len(r.Results) == 0 || !isNilConst(r.Results[len(r.Results)-1]) {
-						continue
+			if emitAddRefusals {
+				// the functions that report the outcome of this update: the function itself, or — when the update sits in a
+				// worker without an error result — the functions that call it
+				var targets []*ssa.Function
+				var up func(f *ssa.Function, d int)
+				seenUp := map[*ssa.Function]bool{}
+				up = func(f *ssa.Function, d int) {
+					if seenUp[f] || d > 3 {
+						return
 					}
-					tested := false
-					tf := w.testedBefore(r)
-					for _, f := range tf {
-						if isHas(f.Expr) {
-							tested = true
+					seenUp[f] = true
+					// the function whose returns carry the documented errors: the nearest one, going up from the update,
+					// that has an error result (an exported method, or the worker the exported methods forward to)
+					if res := f.Signature.Results(); res.Len() > 0 && isErrorType(res.At(res.Len()-1).Type()) {
+						targets = append(targets, f)
+						return
+					}
+					for _, cs := range w.callersOfCached(f) {
+						if !isTestFile(w, cs.Pos()) {
+							up(cs.Parent(), d+1)
 						}
 					}
-					w.check(tested, "C06.R8", fnKey(a.fn)+"/error-free-return/signer-is-new", retPos(r), "every error-free outcome follows the `signer has no share yet` test", "an error-free outcome is reachable without the `signer has no share yet` test: a duplicate signer is not refused with the documented error on this path", factStrings(tf)...)
+				}
+				up(a.fn, 0)
+				for _, m := range targets {
+					if addSeen[m] {
+						continue
+					}
+					addSeen[m] = true
+					mrecv := ""
+					if len(m.Params) > 0 {
+						mrecv = m.Params[0].Name()
+					}
+					mmap := mrecv + "." + a.fld.Name()
+					mHas := func(e string) bool { return strings.HasPrefix(e, mmap+"[") && strings.HasSuffix(e, "]#1 == false") }
+					for _, r := range returnsFlat(m) {
+						if len(r.Results) == 0 || !isNilConst(r.Results[len(r.Results)-1]) {
+							continue
+						}
+						tested := false
+						tf := w.testedBefore(r)
+						for _, f := range tf {
+							if mHas(f.Expr) {
+								tested = true
+							}
+						}
+						w.check(tested, "C06.R8", fnKey(m)+"/error-free-return/signer-is-new", retPos(r), "every error-free outcome follows the `signer has no share yet` test", "an error-free outcome is reachable without the `signer has no share yet` test: a duplicate signer is not refused with the documented error on this path", factStrings(tf)...)
+					}
 				}
 			}
 			// the guards must have been evaluated in this critical section: the reads they depend on happen with the exclusive lock held
